@@ -208,6 +208,9 @@ namespace heap {
   // Arms fault injection / layout perturbation for wrapped malloc/realloc/free. Block tracking is always on.
   void configure(int junk_mode /*0 none,1 zero,2 0xFF,3 seeded*/, int realloc_policy /*0 real,1 always move*/, int shift_blocks, uint64_t seed);
   void arm(bool on);
+  // Placement policy for requests of 1 KiB .. 256 KiB (arena blocks): 0 = the process allocator decides, 1 = carved from the top
+  // of a private slab downwards (later blocks lie below earlier ones). Reset at the start of every run.
+  void set_placement(int policy);
   // Blocks allocated since begin_run that are still live.
   size_t live_blocks_this_run();
   std::string describe_live_blocks_this_run(size_t max = 4);
